@@ -7,7 +7,7 @@ PROP = {
     "suites": [("test", "crash"), ("test", "tornfiles")],
     "assumptions": [
         "process-crash model: the kernel keeps completed system calls; a single write(2) with O_APPEND and a rename(2) are atomic with respect to process death (torn writes and power loss are outside the property)",
-        "the disk is modelled at record granularity; that key files are only ever replaced by rename and logs only ever appended by one write is re-checked on every run by a go/ast scan of the server's file-writing sites (harness/suites/writesites.go): an unexpected create/truncate-then-write site makes the suite synthesize the 'present but empty' images",
+        "the disk is modelled at record granularity; that key files are only ever replaced by rename and logs only ever appended by one write is re-checked on every run by a go/ast scan of the server's file-writing sites (harness/suites/writesites.go): an unexpected create/truncate-then-write site makes the suite synthesize the 'present but empty' images, and a persistence function that can put a record on disk in more than one write call (second Write, Write in a loop, handle handed to another function or goroutine) makes it synthesize 'record cut short' images",
         "signature scheme is a parameter (Section variable verify)",
     ],
 }
